@@ -110,7 +110,7 @@ fn run_one(sys: usize, len: usize, natt: usize, survivor: bool, obs: Observer, k
         .stdout(Stdio::piped())
         .spawn()
         .unwrap();
-    let (rx, data, mut chans, _) = server.accept().unwrap();
+    let (mut rx, data, mut chans, _) = server.accept().unwrap();
     if data != b"boot" {
         case.fail("bootstrap message damaged".into());
     }
@@ -154,7 +154,7 @@ fn run_one(sys: usize, len: usize, natt: usize, survivor: bool, obs: Observer, k
         for _ in 0..3 {
             atts.push(OsIpcChannel::Sender(ptx.clone()));
         }
-        if obs == Observer::Timed {
+        if obs == Observer::Timed || obs == Observer::Select {
             let s2 = s.clone();
             let sent2 = sentinel.clone();
             late_sender = Some(std::thread::spawn(move || {
@@ -305,18 +305,51 @@ fn run_one(sys: usize, len: usize, natt: usize, survivor: bool, obs: Observer, k
             }
         },
         Observer::Select => {
+            // in every other case the complete 777-byte message is taken with a plain receive first, so that the member enters
+            // the set holding at most the truncated message and nothing complete in front of it
+            if k % 2 == 1 {
+                match crate::util::with_watchdog(8, move || { let r = rx.recv(); (rx, r) }) {
+                    Some((r, Ok((d, ch, sh)))) => {
+                        got.push(d);
+                        got_att.push((ch, sh.len()));
+                        rx = r;
+                    },
+                    Some((r, Err(_))) => {
+                        case.fail("the complete message queued before the crash could not be received".into());
+                        rx = r;
+                    },
+                    None => {
+                        case.fail("recv() of the complete message queued before the crash blocked".into());
+                        case.pair("noop".into(), "ok".into());
+                        return (case, ncalls);
+                    },
+                }
+            }
             let mut set = OsIpcReceiverSet::new().unwrap();
             let rid = set.add(rx).unwrap();
+            // a second member with a message of its own: while the first member holds at most a truncated message (its
+            // survivor speaks only 400 ms later), select must report this one — it may not sit in a read on the first member
+            let (btx, brx) = platform::channel().unwrap();
+            let bid = set.add(brx).unwrap();
+            btx.send(b"__other_member__", vec![], vec![]).unwrap();
+            let b_sent = std::time::Instant::now();
+            let mut b_seen: Option<std::time::Duration> = None;
+            let mut b_after_sentinel = false;
             let (tx_r, rx_r) = std::sync::mpsc::channel();
-            std::thread::spawn(move || loop {
+            std::thread::spawn(move || {
+                let mut stop = false;
+                let mut other_seen = false;
+                loop {
                 match set.select() {
                     Ok(rs) => {
-                        let mut stop = false;
                         for r in rs {
                             match r {
                                 OsIpcSelectionResult::DataReceived(i, d, ch, sh) => {
                                     if d == b"__survivor__" {
                                         stop = true;
+                                    }
+                                    if d == b"__other_member__" {
+                                        other_seen = true;
                                     }
                                     let _ = tx_r.send(Ok((i, d, ch, sh.len())));
                                 },
@@ -326,15 +359,23 @@ fn run_one(sys: usize, len: usize, natt: usize, survivor: bool, obs: Observer, k
                                 },
                             }
                         }
-                        if stop {
+                        if stop && other_seen {
                             break;
                         }
                     },
                     Err(_) => break,
                 }
+                }
             });
             loop {
                 match rx_r.recv_timeout(std::time::Duration::from_secs(8)) {
+                    Ok(Ok((i, d, _, _))) if i == bid => {
+                        if d != b"__other_member__" {
+                            case.fail("the other member's message arrived altered".into());
+                        }
+                        b_seen = Some(b_sent.elapsed());
+                        b_after_sentinel = got.last() == Some(&sentinel);
+                    },
                     Ok(Ok((i, d, ch, ns))) => {
                         if i != rid {
                             case.fail("select reported a foreign id".into());
@@ -351,6 +392,30 @@ fn run_one(sys: usize, len: usize, natt: usize, survivor: bool, obs: Observer, k
                 if finished(&got, closed) {
                     break;
                 }
+            }
+            // the other member's event may come right after the first member's last one
+            if b_seen.is_none() {
+                if let Ok(Ok((i, d, _, _))) = rx_r.recv_timeout(std::time::Duration::from_secs(2)) {
+                    if i == bid && d == b"__other_member__" {
+                        b_seen = Some(b_sent.elapsed());
+                        b_after_sentinel = got.last() == Some(&sentinel);
+                    }
+                }
+            }
+            drop(btx);
+            match b_seen {
+                // the survivor of the first member speaks after 400 ms: the other member's message must not have to wait for that
+                // (both conditions: late on the clock *and* after the survivor's message, so that a slow machine alone is no alarm)
+                Some(t) if survivor && t > std::time::Duration::from_millis(300) && b_after_sentinel => case.fail(format!(
+                    "select() reported the message pending on another member only after {:?} — it was blocked in a read on the member whose sender had been killed",
+                    t
+                )),
+                Some(_) => {},
+                None => {
+                    if case.oracle.is_none() {
+                        case.fail("select() never reported the message pending on the other member".into());
+                    }
+                },
             }
         },
     }
